@@ -33,13 +33,13 @@ ADDED = {
     "C14": "CRLF corpora; corrupt-payload and over-expanding archives; short bodies; stalled connections; sub-second table age; final 3xx answers; signatures that tell who left a trusted file.",
     "C15": "dirty working copy; branches deleted upstream; recorded revision.",
     "C16": "histories on one Retry instance and one shared params dict (ParamsUntouched).",
-    "C17": "error body shapes; many-item bulk errors; concrete connection error classes; transport-layer leg through the real RallySyncElasticsearch.",
+    "C17": "error body shapes; many-item bulk errors; concrete connection error classes; transport-layer leg through the real RallySyncElasticsearch; store leg (real EsMetricsStore put/flush/close histories over guarded calls with whole-call outcomes, validated against EsStore.tla: documents of a bulk_index call that returned are never handed over again).",
     "C18": "failing sub-requests and failed streams (judged after fix f822262); ClientIndependent (solo re-execution); DependentDated; wire leg incl. responses cut after the headers and two target hosts.",
     "C19": "bulk items status x _shards x op types; hits.total shapes; error description transcription; dotted member names.",
     "C20": "colliding task/operation names; locale leg (report file under LC_ALL=C).",
 }
 
-MORE_SPEC_DIRS = {"C09": ["TrackPrep"], "C01": ["ActorSem"], "C04": ["WireTiming"], "C18": ["WireTiming"]}
+MORE_SPEC_DIRS = {"C09": ["TrackPrep"], "C01": ["ActorSem"], "C17": ["EsStore"], "C11": ["RaceDriver"], "C04": ["WireTiming"], "C18": ["WireTiming"]}
 
 
 def check(pid, text, note, technique, engine="tlc", design_ref=None, spec=None):
